@@ -370,14 +370,16 @@ func lowerGuarded(p *Prog, fn *ssa.Function, b *ssa.BasicBlock, val ssa.Value, s
 }
 
 // vf10TxnReason: why `lastIndex() - x` inside a truncation transaction cannot wrap.
-const vf10TxnReason = "truncation transactions run only after DeleteRange classified min <= last and max >= last with the log non-empty (FD-01), so lastIndex() >= newMax = min-1 and every removed segment has BaseIndex > newMax >= MinIndex-1; the subtractions cannot wrap"
+const vf10TxnReason = "the tail truncation transaction runs only after DeleteRange classified min <= last and max >= last with the log non-empty (FD-01), so lastIndex() >= newMax = min-1 and every removed segment has BaseIndex > newMax >= MinIndex-1; the subtractions cannot wrap"
 
 func runVF10(p *Prog, r *RuleRun) {
 	// transaction bodies on DeleteRange's path (the one exception, see vf10TxnReason)
 	inTruncTxn := map[*ssa.Function]bool{}
 	if v, dr := newWalVocab(p), p.Func("", "WAL.DeleteRange"); dr != nil {
 		for fn := range p.reachableFuncs(dr) {
-			if v.isTxnSig(fn.Signature) && fn.Parent() != nil {
+			// the *tail* truncation: the transaction that force-seals the tail writer
+			if v.isTxnSig(fn.Signature) && fn.Parent() != nil &&
+				p.reaches(fn, func(ci ssa.CallInstruction) bool { return eventName(ci) == "types.SegmentWriter.ForceSeal" }) {
 				inTruncTxn[fn] = true
 			}
 		}
